@@ -1,12 +1,14 @@
 (* C08 — Formatting a program does not change what it means.
-   Property theorems only; proofs live in Proofs/FmtP.v.
+   Property theorems only; proofs live in Proofs/Fmt2P.v and Proofs/Fmt2Q.v.
 
-   Model/Fmt.v: [fmt_prog false] is the canonical printer of the modelled subset, [fmt_prog true] the faithful model of
+   Model/Fmt2.v (Model/Fmt.v extended by maps, tuple-struct values, table literals, comments, enum definitions, function
+   definitions with arms, match expressions, patterns and set/matrix comprehensions):
+   [fmt_prog false] is the canonical printer of the modelled subset, [fmt_prog true] the faithful model of
    src/syntax/src/formatter.rs (text mode) on that subset, [parse_tok] a recursive-descent parser over the same tokens
    (blanks and newlines are tokens).  Comparison (1) of the check ties the real formatter's text to [render (fmt_prog true p)],
    comparison (2) observes the round trip on the implementation itself. *)
 From Coq Require Import List ZArith String.
-From MechV Require Import Base.Sexp Base.Obs Model.Fmt Proofs.FmtP.
+From MechV Require Import Base.Sexp Base.Obs Model.Fmt2 Proofs.Fmt2P Proofs.Fmt2Q.
 Import ListNotations.
 Open Scope string_scope.
 Open Scope list_scope.
@@ -108,3 +110,70 @@ Example C08_example :
   render (fmt_prog true p) = ("~x<[u8]:1,3> := [1 + a * (a - -1) a' f(1..=a)]" ++ nl ++ "x[:,1].b = {k<u8>: (1,{a})}" ++ nl)%string.
 Proof. cbv zeta. repeat split; vm_compute; reflexivity. Qed.
 Print Assumptions C08_example.
+
+(* 8. The extension of the subset (second round).  C08_fmt_parse above now quantifies over programs that may also contain
+      map literals, tuple-struct values `:ok(200)`, comment statements, enum definitions, function definitions with
+      match arms, and — as the right-hand side of a define / assign / op-assign / expression statement — table literals,
+      match expressions with guards and set / matrix comprehensions.  The component round trips, for all sizes: *)
+
+(* every well-formed pattern (wildcard, literal, variable, tuple, enum variant `:some(p, q)`, array `[h | t]`, `[a … z]`,
+   arbitrarily nested tuples / variants) is read back from its text, whatever follows it *)
+Theorem C08_pattern_roundtrip : forall (p : pat) (n : nat) (rest : list tok),
+  wf_pat p = true -> List.length (fmt_pat p) <= n -> post0 rest = true ->
+  ppat n (fmt_pat p ++ rest) = Some (p, rest).
+Proof. exact (fun p n rest Hw => pat_all_ok p Hw n rest). Qed.
+Print Assumptions C08_pattern_roundtrip.
+
+(* the token list of an array pattern determines prefix, spread / rest binding and suffix *)
+Theorem C08_array_pattern_parts : forall (pre : list pitem) (tl : atail), assemble (parts pre tl) = Some (pre, tl).
+Proof. exact assemble_parts. Qed.
+Print Assumptions C08_array_pattern_parts.
+
+(* every well-formed right-hand side (expression, table, match, comprehension) is read back from its text *)
+Theorem C08_rhs_roundtrip : forall (r : rhs) (n : nat) (rest : list tok),
+  wf_rhs r = true -> List.length (fmt_rhs false r) <= n ->
+  prhs n (fmt_rhs false r ++ TNl :: rest) = Some (r, TNl :: rest).
+Proof. exact prhs_ok. Qed.
+Print Assumptions C08_rhs_roundtrip.
+
+(* a table literal keeps its header and its rows (an r-row table is never read back with another row structure) *)
+Theorem C08_table_rows_preserved : forall mu x k fs rows s',
+  wf_rhs (RTable fs rows) = true ->
+  parse_tok (fmt_prog false [SDefine mu x k (RTable fs rows)]) = Some [s'] ->
+  s' = SDefine mu x k (RTable fs rows).
+Proof. exact table_rows_preserved_thm. Qed.
+Print Assumptions C08_table_rows_preserved.
+
+(* formatter.rs and the canonical printer agree on every right-hand side whose expressions are outside the defect classes *)
+Theorem C08_holds_rhs : forall r : rhs, Forall clean (rhs_exprs r) -> fmt_rhs true r = fmt_rhs false r.
+Proof. exact fmt_rhs_agree. Qed.
+Print Assumptions C08_holds_rhs.
+
+(* non-vacuity of the extension: one program with every new construct is well-formed, lexically fine, outside the defect
+   classes, round-trips, and has exactly this text *)
+Example C08_example_extension :
+  let n1 := ELit (LNum "1") None in let va := EVar "a" None in
+  let p := [ SComment " hello";
+             SEnum "color" [("red", None); ("ok", Some (KScalar "u64"))];
+             SDefine false "x" None (RTable [("a", KScalar "f64"); ("b", KScalar "u8")] [[n1; va]; [va; n1]]);
+             SDefine false "m" None (EMap [(n1, va); (ELit (LStr "k") None, ETupS "ok" n1)]);
+             SDefine false "e" None (EMap []);
+             SFun "f" [("x", KScalar "u64")] (KScalar "u64")
+               [(false, PItem (ILit (LNum "0") None), n1);
+                (true, PTup [PItem (IVar "n" None); PItem IWild], ETerm va [(OMul, n1)])];
+             SDefine false "y" None
+               (RMatch va [(false, PArr [IVar "h" None] (ARest (IVar "t" None)), Some (ETerm va [(OGt, n1)]), n1);
+                           (false, PTupS "some" [PItem (IVar "v" None)], None, va);
+                           (true, PItem IWild, None, n1)]);
+             SExpr (RCompr false (ETerm va [(OMul, n1)])
+                      [QGen (PItem (IVar "a" None)) va; QFilt (ETerm va [(OGt, n1)]); QLet "z" None n1]);
+             SExpr (RCompr true va [QGen (PArr [] (ASpread [IVar "z" None])) (EMat [[n1; n1]])]) ] in
+  wf_prog p = true /\ lex_ok p = true /\ defect_free p = true /\ parse_tok (fmt_prog true p) = Some p /\
+  render (fmt_prog true p) =
+    ("-- hello" ++ nl ++ "<color> := :red | :ok<u64>" ++ nl ++ "x := | a<f64> b<u8> | 1 a | a 1 |" ++ nl ++
+     "m := {1: a, ""k"": :ok(1)}" ++ nl ++ "e := {:}" ++ nl ++
+     "f(x<u64>) => <u64>" ++ nl ++ "  ├ 0 => 1" ++ nl ++ "  └ (n, *) => a * 1." ++ nl ++
+     "y := a?" ++ nl ++ nl ++ "├[h | t], a > 1 ⇒ 1" ++ nl ++ "├:some(v) ⇒ a" ++ nl ++ "└* ⇒ 1." ++ nl ++ nl ++
+     "{ a * 1 | a ← a, a > 1, z := 1 }" ++ nl ++ "[ a | [… z] ← [1 1] ]" ++ nl)%string.
+Proof. cbv zeta. repeat split; vm_compute; reflexivity. Qed.
+Print Assumptions C08_example_extension.
